@@ -150,6 +150,7 @@ class Interp:
         self.globals = {}       # module var bindings
         self.bound_assumptions = []
         self.inbounds = []
+        self.conformance = []       # (dummy, condition): explicit-shape dummy fits its actual (subset of inbounds)
         self.nonzero_conds = []     # the division-by-zero part of `inbounds`
         self.assumptions = []
         self.trace = []
@@ -662,6 +663,8 @@ class Interp:
                 ub = self.ev(s.items[1], frame, guard)
                 # conformance: dummy extent must not exceed the actual's
                 self.inbounds.append(z3.Implies(guard, ub - lb + 1 <= exts[dpos]))
+                self.conformance.append((f"{frame.name}:{name} dimension {dpos + 1}",
+                                         z3.Implies(guard, ub - lb + 1 <= exts[dpos])))
             else:
                 raise Unsupported("dummy shape " + type(s).__name__)
             bounds.append((lb, ub))
